@@ -15,7 +15,13 @@ use std::sync::atomic::{AtomicBool, Ordering};
 use std::sync::Arc;
 use std::time::Duration;
 
-pub type WireLog = Arc<Mutex<Vec<(u64, SocketAddr, Vec<u8>)>>>;
+pub type WireLog = Arc<Mutex<Vec<(u64, SocketAddr, Vec<u8>, u64)>>>;
+
+/// global sequence number so that wire events and API results can be merged in the order they happened
+pub static SEQ: std::sync::atomic::AtomicU64 = std::sync::atomic::AtomicU64::new(0);
+pub fn next_seq() -> u64 {
+    SEQ.fetch_add(1, Ordering::SeqCst)
+}
 
 /// virtual milliseconds since the runtime started (paused clock)
 pub struct Clock(pub tokio::time::Instant);
@@ -103,7 +109,7 @@ impl Transport for MockTp {
             return Err(io::Error::new(io::ErrorKind::Other, "mock send failure"));
         }
         let ms = (tokio::time::Instant::now() - self.start).as_millis() as u64;
-        self.log.lock().push((ms, target, message.to_vec()));
+        self.log.lock().push((ms, target, message.to_vec(), next_seq()));
         Ok(())
     }
 }
